@@ -66,3 +66,102 @@ def check(P, R, rule="RF-grow"):
                               "name from the command line or an input file) still does not fit and is copied over the end of the new block", c)
     R.floor(rule, "buffers grown by doubling", n, 2)
     return n
+
+
+def check_lastline(P, R, rule="RF-lastline"):
+    """a line read with getline() ends in a newline unless it is the last line of a file that lacks one; a length that drops the
+    terminator unconditionally (`nrd - 1`) drops the last character of such a line.  Applied to the map compiler (lib/tzmap.c)."""
+    import os
+    n = 0
+    seen = set()
+    for t in P.tus:
+        if os.path.basename(t.main) != "tzmap.c":
+            continue
+        for fn in t.funclist:
+            if getattr(fn, "body", None) is None or not fn.file.endswith("tzmap.c"):
+                continue
+            res = None
+            for x in fn.walk():
+                if x.get("k") == "BinaryOperator" and x.get("op") == "=" and (strip(x["c"][1]) or {}).get("k") == "CallExpr" \
+                        and (strip(x["c"][1]) or {}).get("callee") == "getline":
+                    res = strip(x["c"][0])
+                if x.get("k") == "Var" and x.get("c") and (strip(x["c"][0]) or {}).get("k") == "CallExpr" and (strip(x["c"][0]) or {}).get("callee") == "getline":
+                    res = x
+            if res is None:
+                continue
+            rd = res.get("d")
+            for c in fn.walk():
+                if c.get("k") != "CallExpr" or c.get("callee") in ("getline", "free"):
+                    continue
+                for a in call_args(c):
+                    a0 = strip(a)
+                    while a0 is not None and a0.get("k") in CASTS and a0.get("c"):
+                        a0 = strip(a0["c"][0])
+                    if a0 is None or a0.get("k") != "BinaryOperator" or a0.get("op") != "-":
+                        continue
+                    l = strip(a0["c"][0])
+                    while l is not None and l.get("k") in CASTS and l.get("c"):
+                        l = strip(l["c"][0])
+                    if l is None or l.get("k") != "DeclRefExpr" or l.get("d") != rd:
+                        continue
+                    key = (fn.name, c.get("l"))
+                    if key in seen:
+                        continue
+                    seen.add(key)
+                    n += 1
+                    R.saw(fn)
+                    site = "%s(%s) in %s" % (c.get("callee"), ", ".join(expr_text(strip(z))[:24] for z in call_args(c)), fn.name)
+                    if const_of(a0["c"][1]) is not None:
+                        R.finding(rule, fn, site, "the line's length is cut by a constant for the newline; the last line of a file need not have "
+                                  "one, and then its last character (of the zone name) is dropped", c)
+                    else:
+                        R.ob(rule, "%s: the newline is taken off the length only where there is one" % site, True)
+    R.floor(rule, "line lengths handed on by the map compiler", n, 1)
+    return n
+
+
+def check_prefix_state(P, R, rule="RF8-prefix"):
+    """the duration parser keeps what the prefixes of an argument said (`+ - = < > /`) in its state record across the pieces of one
+    argument; at the end of the argument everything a prefix can set must be cleared, or it leaks into the next argument (a rounding
+    spec after `/1h` is read as a co-class too)"""
+    io = P.tu("libdutio_a-dt-io.o")
+    fn = io.func("dt_io_strpdtdur")
+    if fn is None:
+        raise AnalysisBroken("dt_io_strpdtdur vanished")
+    R.saw(fn)
+    st = fn.params[0]["d"]
+    # members set in the prefix switch (stores under a case label whose value is a character)
+    sets = {}
+    for sw in fn.switches():
+        for x in walk(sw):
+            if x.get("k") in ("BinaryOperator", "CompoundAssignOperator", "UnaryOperator") and x.get("op") in ("=", "++", "--", "+=", "-=", "|="):
+                l = strip(x["c"][0])
+                if l is not None and l.get("k") == "MemberExpr" and l.get("arrow") and (strip(l["c"][0]) or {}).get("d") == st:
+                    if not (x.get("op") == "=" and const_of(x["c"][1]) == 0):
+                        sets.setdefault(l.get("n"), x)
+    if not sets:
+        raise AnalysisBroken("%s: the prefix switch of dt_io_strpdtdur was not recognised" % rule)
+    # the end-of-argument block: the if-statement that clears the continuation pointer
+    ends = [i for i in fn.walk() if i.get("k") == "IfStmt" and any(
+        y.get("k") == "BinaryOperator" and y.get("op") == "=" and (strip(y["c"][0]) or {}).get("k") == "MemberExpr"
+        and (strip(y["c"][0]) or {}).get("n") == "cont" and const_of(y["c"][1]) == 0 for y in walk(i["c"][1]))]
+    if not ends:
+        raise AnalysisBroken("%s: the end-of-argument block of dt_io_strpdtdur was not recognised" % rule)
+    cleared = set()
+    for y in walk(ends[-1]["c"][1]):
+        if y.get("k") == "BinaryOperator" and y.get("op") == "=" and const_of(y["c"][1]) == 0:
+            l = strip(y["c"][0])
+            if l is not None and l.get("k") == "MemberExpr" and (strip(l["c"][0]) or {}).get("d") == st:
+                cleared.add(l.get("n"))
+        if y.get("k") == "CallExpr" and y.get("callee") == "memset":
+            cleared |= set(sets)
+    n = 0
+    for nm, x in sorted(sets.items()):
+        n += 1
+        if nm in cleared:
+            R.ob(rule, "dt_io_strpdtdur: `st->%s`, set by a prefix, is cleared at the end of the argument" % nm, True)
+        else:
+            R.finding(rule, fn, "st->%s" % nm, "a prefix sets `st->%s` (line %s) and nothing clears it at the end of the argument: the next "
+                      "argument is parsed as if it carried the prefix too (`dround T /1h 5m` reads `5m` as `/5m`)" % (nm, x.get("l")), x)
+    R.floor(rule, "state members set by prefixes", n, 2)
+    return n
